@@ -148,8 +148,35 @@ def standin_algebra(tier, seed):
         want = cirq.unitary(d) @ _mat(other if isinstance(other, cirq.PauliString) else cirq.PauliString(other), qs[: len(d)])
         if not np.allclose(cirq.unitary(prod), want, atol=1e-9):
             bad("DensePauliString * PauliString drops the operand's coefficient", a=d, b=other)
+    # dense x sparse: the sparse operand's line qubits are the dense positions; commutation and products agree with the matrices whatever
+    # order the sparse string was written in, and an operand without a dense position (negative index) is refused
+    L = cirq.LineQubit
+    dense_set = [cirq.DensePauliString("IIZ"), cirq.DensePauliString("XYZ", coefficient=-1), cirq.DensePauliString("ZI")]
+    sparse_set = [cirq.X(L(2)) * cirq.Z(L(0)), cirq.Z(L(0)) * cirq.X(L(2)), cirq.Y(L(1)) * 1j, cirq.X(L(2)) * cirq.Z(L(-1)), cirq.Z(L(-1)) * cirq.X(L(2)), cirq.X(L(-1)) * 1, cirq.Z(L(1)) * cirq.X(L(0))]
+    for d, sp in itertools.product(dense_set, sparse_set):
+        cases += 1
+        negative = any(x.x < 0 for x in sp.qubits)
+        n_ = max(len(d), max(x.x for x in sp.qubits) + 1)
+        reg = [L(i) for i in range(n_)]
+        for what, fn in (("commutes", lambda: cirq.commutes(d, sp)), ("product", lambda: d * sp)):
+            try:
+                got = fn()
+            except (ValueError, TypeError, IndexError) as ex:
+                if not negative or isinstance(ex, IndexError):
+                    bad(f"dense x sparse {what} raised {type(ex).__name__}", a=d, b=sp)
+                continue
+            if negative:
+                bad(f"dense x sparse {what} accepted an operand on a line qubit with a negative index (it has no dense position)", a=d, b=sp, got=got)
+                continue
+            Md, Ms = _mat(d.on(*reg[: len(d)]), reg), _mat(sp, reg)
+            if what == "commutes" and got in (True, False) and got != bool(np.allclose(Md @ Ms, Ms @ Md, atol=1e-9)):
+                bad("commutes(dense, sparse) disagrees with the matrices", a=d, b=sp, got=got)
+            if what == "product" and got is not NotImplemented:
+                pm = cirq.unitary(got) if len(got) == n_ else np.kron(cirq.unitary(got), np.eye(2 ** (n_ - len(got))))
+                if not np.allclose(pm, Md @ Ms, atol=1e-9):
+                    bad("dense * sparse differs from the matrix product", a=d, b=sp)
     return dict(function=F + "/{pauli_string,dense_pauli_string,linear_combinations}.py[algebra vs matrices]", case="algebra",
-                bound="all 64x64 ordered pairs of 2-qubit Pauli strings with coefficients {1,-1,i,0.5-2i}; scalar multiples; integer and fractional powers; dense strings",
+                bound="all 64x64 ordered pairs of 2-qubit Pauli strings with coefficients {1,-1,i,0.5-2i}; scalar multiples; integer and fractional powers; dense strings; dense x sparse operands (any writing order, negative indices refused)",
                 cases=cases, distinct=cases, failures=len(fails), exhaustive=True, _fails=fails[:6])
 standin_algebra.prop = "C14"
 
